@@ -41,8 +41,8 @@ def literal_rule(ck, facts, rl, owners):
                   "Prettifier::write_literal")
     if fn is None:
         return
-    pairs = []
-    true_edges = []
+    from mirutil import enumerate_paths
+    owners_of = {}
     for bi, t, owner in match_calls(facts, fn):
         if owner is None or owner not in owners:
             ck.bad("L4.1", "L4.1@write_literal#unknown-regex", "is_match on an unidentified regex in write_literal", fn.loc)
@@ -53,73 +53,90 @@ def literal_rule(ck, facts, rl, owners):
             ck.bad("L4.1", "L4.1@write_literal#%s-text" % short,
                    "%s is matched against something other than the literal's lexical form" % short, fn.loc)
             continue
-        # find the switch on this verdict
-        sw = None
-        for cand in sorted(fn.reachable(t["to"])):
-            bs = bool_switch(fn, cand)
-            if bs and bs[0][0] == "call" and bs[0][1] is t:
-                sw = (cand, bs[1])
-                break
-        if sw is None:
-            ck.bad("L4.1", "L4.1@write_literal#%s-branch" % short, "verdict of %s is not branched on" % short, fn.loc)
-            continue
-        true_edges.append(sw)
-        # dominating datatype test
-        dt = None
-        for cand in sorted(fn.dominators().get(bi, ())):
-            bs = bool_switch(fn, cand)
-            if not bs or bs[0][0] != "call":
-                continue
-            ct = bs[0][1]
-            if not call_name_matches(ct, r"cmp::PartialEq(<.*>)?>?::eq$"):
-                continue
-            consts = []
-            other = []
-            for a in ct["args"]:
-                pv = provenance(fn, a)
-                last = pv[-1]
-                if last[0] == "const" and last[1].get("kind") == "static":
-                    consts.append(last[1]["def"])
-                else:
-                    other.append(a)
-            if len(consts) == 1 and len(other) == 1 and comes_from_call(fn, other[0], r"Term>::datatype$|Term::datatype$"):
-                if edge_dominates(fn, (cand, bs[1]), bi):
-                    dt = consts[0]
-        if dt is None:
-            ck.bad("L4.1", "L4.1@write_literal#%s-datatype" % short,
-                   "the %s shorthand test is not guarded by an equality of the literal's datatype with an xsd constant" % short,
-                   fn.loc)
-            continue
-        pairs.append((owner, dt))
-        ck.ok("L4.1-pairing", "%s <-> %s" % (dt.split("::")[-1], short))
-    # raw emissions of the lexical form must lie behind an is_match true edge
-    raw = 0
-    for bi, t in fn.calls():
-        if not call_name_matches(t, SINKS):
-            continue
-        if not any(comes_from_call(fn, a, r"Term>::lexical_form$|Term::lexical_form$") for a in t["args"][1:]):
-            continue
-        raw += 1
-        # remove all is_match-true edges
-        seen = set()
-        st = [0]
-        edges = set(true_edges)
-        while st:
-            b = st.pop()
-            if b in seen:
-                continue
-            seen.add(b)
-            for s in fn.succs(b):
-                if (b, s) in edges:
+        owners_of[id(t)] = owner
+
+    def datatype_of_eq(ct):
+        """xsd static compared with the literal's datatype by this `==` call, or None"""
+        if not call_name_matches(ct, r"cmp::PartialEq(<.*>)?>?::(eq|ne)$"):
+            return None
+        consts, other = [], []
+        for a in ct["args"]:
+            last = provenance(fn, a)[-1]
+            if last[0] == "const" and last[1].get("kind") == "static":
+                consts.append(last[1]["def"])
+            else:
+                other.append(a)
+        if len(consts) == 1 and len(other) == 1 and comes_from_call(fn, other[0], r"Term>::datatype$|Term::datatype$"):
+            return consts[0]
+        return None
+
+    def on_call(t):
+        if call_name_matches(t, SINKS) and any(comes_from_call(fn, a, r"Term>::lexical_form$|Term::lexical_form$") for a in t["args"][1:]):
+            return ("RAW", t)
+        return None
+    # Path rule (insensitive to how the test is spelled: nested ifs, `&&`/`||` chains, a boolean `let`): on every path, what
+    # has been established *before* the lexical form is written raw must include, for one and the same T,
+    # `datatype == xsd:T` and `REGEX_T.is_match(lexical form)`.
+    try:
+        paths = enumerate_paths(fn, 0, on_call, max_paths=4000, trace=True)
+    except CheckError as e:
+        ck.bad("L4.1", "L4.1@write_literal#shape", str(e), fn.loc)
+        return
+    pairs = []
+    raw_sites = set()
+    unguarded = set()
+    mispaired = {}
+    for conds, toks in paths:
+        established, true_dt = [], []      # (regex, datatype established last before its verdict) in path order
+        for tk in toks:
+            if tk[0] == "?":
+                o = tk[3]
+                if o and o[0] == "call":
+                    ct = o[1]
+                    if id(ct) in owners_of and tk[2] is True:
+                        established.append((owners_of[id(ct)], true_dt[-1] if true_dt else None))
+                    dt = datatype_of_eq(ct)
+                    if dt is not None:
+                        is_ne = (ct["f"].get("name") or "").endswith("::ne")
+                        if tk[2] is (not is_ne):
+                            true_dt.append(dt)
+            elif tk[0] == "RAW":
+                t = tk[1]
+                loc = "%s:%s" % (t["file"], t["line"])
+                raw_sites.add(loc)
+                if not established:
+                    unguarded.add(loc)
                     continue
-                st.append(s)
-        if bi in seen:
-            ck.bad("L4.1", "L4.1@write_literal#unguarded-raw-emission",
-                   "the lexical form is written unquoted on a path that passes no shorthand regex test", "%s:%s" % (t["file"], t["line"]))
+                r, d = established[-1]
+                if d is None:
+                    mispaired[r] = loc
+                elif (r, d) not in pairs:
+                    pairs.append((r, d))
+    for loc in sorted(unguarded):
+        ck.bad("L4.1", "L4.1@write_literal#unguarded-raw-emission",
+               "the lexical form is written unquoted on a path that passes no shorthand regex test", loc)
+    for owner, loc in sorted(mispaired.items()):
+        short = owner.split("::")[-1]
+        ck.bad("L4.1", "L4.1@write_literal#%s-datatype" % short,
+               "the %s shorthand test is not guarded by an equality of the literal's datatype with an xsd constant" % short, loc)
+    for loc in sorted(raw_sites - unguarded):
+        ck.ok("L4.1-guard", "raw emission at %s only behind shorthand tests (%d paths)" % (loc.split("/")[-1].split(":")[0], len(paths)))
+    # a path that establishes several (datatype, regex) facts must not mix them up: each regex is paired with one datatype
+    by_regex = {}
+    for r, d in pairs:
+        by_regex.setdefault(r, set()).add(d)
+    for r, ds in sorted(by_regex.items()):
+        short = r.split("::")[-1]
+        if len(ds) != 1:
+            ck.bad("L4.1", "L4.1@write_literal#%s-ambiguous" % short, "%s guards the raw emission for several datatypes %s" % (short, sorted(ds)), fn.loc)
         else:
-            ck.ok("L4.1-guard", "raw emission at bb%d only behind shorthand tests" % bi)
+            ck.ok("L4.1-pairing", "%s <-> %s" % (sorted(ds)[0].split("::")[-1], short))
+    for owner in sorted(set(owners_of.values()) - set(by_regex)):
+        ck.bad("L4.1", "L4.1@write_literal#%s-branch" % owner.split("::")[-1],
+               "verdict of %s never guards a raw emission" % owner.split("::")[-1], fn.loc)
+    pairs = [(r, sorted(ds)[0]) for r, ds in sorted(by_regex.items()) if len(ds) == 1]
     ck.floor("L4.1", "datatype/regex pairings in write_literal", len(pairs), 4)
-    ck.floor("L4.1", "raw emissions of the lexical form", raw, 1)
+    ck.floor("L4.1", "raw emissions of the lexical form", len(raw_sites), 1)
     for owner, dt in pairs:
         short = owner.split("::")[-1]
         if dt not in PAIRING:
@@ -220,10 +237,12 @@ def prefixed_pair_rule(ck, facts):
     somes = [x for x in blocks_with_agg(fn, "core::option::Option", "Some")]
     # keep those whose payload is a 2-tuple (prefix, suffix)
     cands = []
+    found_local = None
     for bi, si, dest, ops in somes:
         o = fn.origin(ops[0])
-        if o[0] == "agg" and o[1]["k"] == "tuple" and len(o[2]) == 2:
+        if o[0] == "agg" and o[1]["k"] == "tuple" and len(o[2]) == 2 and comes_from_call(fn, o[2][0], r"AsPrefix>?::as_prefix$"):
             cands.append((bi, o))
+            found_local = dest[0] if dest else None
     if len(cands) != 1:
         ck.bad("R4.2", key + "#shape", "shape not recognised: expected exactly one `Some((prefix, suffix))` (found %d)" % len(cands), fn.loc)
         return
@@ -308,7 +327,36 @@ def prefixed_pair_rule(ck, facts):
         else:
             ck.bad("R4.2", key + "#result-map", "the closure mapping the found pair does not keep (prefix, suffix)", fn.loc)
     else:
-        ck.bad("R4.2", key + "#result", "the function does not return `found.map(..)`", fn.loc)
+        # the same thing spelled `match found { Some((p, s)) => Some((p, own(s))), None => None }`
+        from mirutil import TRANSPARENT
+        good = bad = 0
+        for bi2, si2, dest2, ops2 in somes:
+            if dest2 != [0]:
+                continue
+            o = fn.origin(ops2[0])
+            if not (o[0] == "agg" and o[1]["k"] == "tuple" and len(o[2]) == 2):
+                bad += 1
+                continue
+            tr = TRANSPARENT + (r"ToOwned>?::to_owned$", r"ToOwned for .*>::to_owned$", r"ToString>?::to_string$", r"String::from$")
+            from mirutil import forward_aliases
+            found_locals = forward_aliases(fn, found_local) if found_local is not None else set()
+            a = [x for x in provenance(fn, o[2][0], transparent=tr) if x[0] == "place"]
+            c = [x for x in provenance(fn, o[2][1], transparent=tr) if x[0] == "place"]
+            def field_of_found(chain, want):
+                for x in chain:
+                    fs = [q for q in x[1][1:] if q.startswith("f")]
+                    if x[1][0] in found_locals and any(q.startswith("d1:Some") for q in x[1][1:]) and fs and fs[-1].startswith(want):
+                        return True
+                return False
+            if field_of_found(a, "f0") and field_of_found(c, "f1"):
+                good += 1
+            else:
+                bad += 1
+        if good == 1 and bad == 0:
+            ck.ok("R4.2", "result = match found { Some((p, s)) => Some((p, own(s))), None => None }")
+        else:
+            ck.bad("R4.2", key + "#result", "the function does not return the found (prefix, suffix) pair unchanged (`found.map(..)` or the "
+                   "equivalent match)", fn.loc)
 
 
 def run(ck, facts, tier):
